@@ -25,6 +25,11 @@ impl Converter {
     }
 
     fn convert_to_field(&self, key_expression: &Expression) -> Option<String> {
+        if self.evaluator.has_side_effects(key_expression) {
+            // the key is known but evaluating it does something (`t[{ call() } and "key"]`)
+            return None;
+        }
+
         if let LuaValue::String(string) = self.evaluator.evaluate(key_expression) {
             String::from_utf8(string)
                 .ok()
